@@ -19,6 +19,10 @@ def pipe_cfg(tag, family, maxrows, invariants=(), props=(), dev=None, live=False
              "  Live = %s" % ("TRUE" if live else "FALSE")]
     for d in DEVS:
         lines.append("  %s = %s" % (d, "TRUE" if d == dev else "FALSE"))
+    lines.append("  Files = 2")
+    lines.append("  DevBreakEndsFileOnly = %s" % ("TRUE" if dev == "DevBreakEndsFileOnly" else "FALSE"))
+    if not live:
+        lines.append("VIEW View")
     lines.append("CHECK_DEADLOCK FALSE")
     for i in invariants:
         lines.append("INVARIANT " + i)
@@ -130,7 +134,7 @@ def build_record(rc, obs):
     if k == "stop":
         o = obs[0]
         return {"kind": "stop", "cfg": PL.strip_private(rc["cfg"]), "input": rc["input"], "ends": rc["ends"], "slack": rc["slack"],
-                "exact": "fifo" not in rc["runs"][0], "out": list(bytes.fromhex(o["out"])), "sep": [10], "res": o["res"], "capped": bool(o.get("capped")), "pulled": o.get("pulled", 0)}
+                "exact": "fifo" not in rc["runs"][0], "out": list(bytes.fromhex(o["out"])), "sep": [10], "res": o["res"], "capped": bool(o.get("capped")), "pulled": o.get("pulled", 0) + rc.get("base", 0)}
     raise ValueError(k)
 
 
